@@ -39,6 +39,41 @@ pub fn decode_sys(low: u64, high: u64) -> SysDesc {
 
 /// the 16 bytes the CPU reads at the selector once the descriptor sits in a descriptor table - appended, or handed over as
 /// the last raw entries - and after a further append behind it: the same two words
+/// the same in tables of other capacities, the descriptor filling the table exactly (capacities that are not powers of two,
+/// the smallest table that can hold a TSS descriptor)
+fn tss_in_sized_tables(r: &mut Rep, case: &str, lo: u64, hi: u64) {
+    use x86_64::structures::gdt::GlobalDescriptorTable;
+    macro_rules! sized {
+        ($M:literal, $pre:expr) => {{
+            let got = catch(|| {
+                let mut g = GlobalDescriptorTable::<$M>::empty();
+                for _ in 0..$pre {
+                    g.append(Descriptor::kernel_data_segment());
+                }
+                let sel = g.append(Descriptor::SystemSegment(lo, hi));
+                (sel.index() as usize, g.entries().iter().map(|e| e.raw()).collect::<Vec<u64>>(), g.limit())
+            });
+            let want_idx = 1 + $pre;
+            match got {
+                Ok((idx, words, limit)) => {
+                    if idx != want_idx || words.len() != want_idx + 2 || words[0] != 0 || words[want_idx] != lo || words[want_idx + 1] != hi || limit as usize != 8 * (want_idx + 2) - 1 || words[1..want_idx].iter().any(|&w| w != DescriptorFlags::KERNEL_DATA.bits()) {
+                        r.viol("C15|tss_segment|descriptor-in-a-descriptor-table-is-not-the-16-bytes-produced", case, &format!("capacity {} after {} code/data descriptors: index {} words {:x?} limit {}", $M, $pre, idx, words, limit));
+                    }
+                }
+                Err(()) => r.viol("C15|tss_segment|descriptor-cannot-be-placed-in-a-table", case, &format!("capacity {}", $M)),
+            }
+        }};
+    }
+    sized!(3, 0);
+    sized!(5, 2);
+    sized!(6, 3);
+    sized!(7, 4);
+    sized!(7, 0);
+    sized!(9, 6);
+    sized!(13, 1);
+    sized!(16, 13);
+}
+
 fn tss_in_table(r: &mut Rep, case: &str, lo: u64, hi: u64) {
     use x86_64::structures::gdt::GlobalDescriptorTable;
     let follow = Descriptor::UserSegment(DescriptorFlags::USER_DATA.bits());
@@ -88,6 +123,9 @@ pub fn tss_desc_case(r: &mut Rep, p: u64) {
         Descriptor::SystemSegment(lo, hi) => {
             if p.count_ones() <= 2 || p.count_zeros() <= 2 {
                 tss_in_table(r, &case, lo, hi);
+                if p.count_ones() <= 1 || p.count_zeros() <= 1 {
+                    tss_in_sized_tables(r, &case, lo, hi);
+                }
             }
             let x = decode_sys(lo, hi);
             if x.base != p {
